@@ -76,6 +76,13 @@ theorem C23_movingAverage_count (A : Arith V F) (n : Nat) (hn : 0 < n) (xs : Lis
   unfold movingAverageDef
   exact Nat.le_trans (List.length_filterMap_le _ _) (by simp)
 
+/-- integers: the value moving_average divides by `n` is exactly the sum of the `n` values
+    of the window `vs[i .. i+n)`. -/
+theorem C23_movingAverage_int_window (fo : FOps F) (eqvF : F → F → Bool) (hF : ∀ x, eqvF x x = true)
+    (n : Nat) (vs : List Int) (i : Nat) (h : i + n ≤ vs.length) :
+    slideSum (intArith fo eqvF hF) n vs i = some (isum ((vs.drop i).take n)) :=
+  slideSum_int fo eqvF hF n vs i h
+
 /-- stddev = sqrt(Σ(x − mean)² / (n − 1)) with the incremental mean, NaN skipped, NaN for
     fewer than two points. -/
 theorem C23_stddev (A : Arith V F) (xs : List (Pt V)) : stddev A.vo A.fo xs = stddevDef A xs :=
